@@ -158,6 +158,9 @@ func cmdCheck(args []string) int {
 	if n, ok := spec.Validate[*tier]; ok {
 		nValidate = n
 	}
+	if v, err := strconv.Atoi(os.Getenv("GOSYM_VALIDATE")); err == nil && v > 0 {
+		nValidate = v // exploratory runs: a larger native validation sample
+	}
 	cfg.KeepPaths = nValidate
 	if cfg.KeepPaths < 8 {
 		cfg.KeepPaths = 8
@@ -165,7 +168,9 @@ func cmdCheck(args []string) int {
 	work := filepath.Join(root, "work", id+"-"+*tier)
 	os.RemoveAll(work)
 	os.MkdirAll(work, 0o755)
-	defer os.RemoveAll(work)
+	if os.Getenv("GOSYM_KEEP_WORK") == "" {
+		defer os.RemoveAll(work)
+	}
 
 	evidencePath := filepath.Join(root, "evidence", id+".json")
 	os.MkdirAll(filepath.Dir(evidencePath), 0o755)
